@@ -578,6 +578,8 @@ func parseAlert(ID string, alert *gtfsrt.Alert, opts *ParseRealtimeOptions) (*Al
 	var trips []Trip
 	var informedRoutes = make(map[string]bool)
 	var informedRoutesFromTripIDs = make(map[string]map[DirectionID]bool)
+	// Route IDs of informedRoutesFromTripIDs in order of first appearance, for deterministic output.
+	var routeIDsFromTripIDs []string
 	for _, entity := range alert.GetInformedEntity() {
 		tripIDOrNil := parseOptionalTripDescriptor(entity.Trip, opts)
 
@@ -586,6 +588,9 @@ func parseAlert(ID string, alert *gtfsrt.Alert, opts *ParseRealtimeOptions) (*Al
 		// Such cases are not handled by the GTFS-realtime spec, but occur in some feeds such
 		// as the MTA bus alerts feed. See: https://groups.google.com/g/mtadeveloperresources/c/pn_EupBj1nY
 		if tripIDOrNil != nil && !tripIDUniquelyIdentifiesTrip(tripIDOrNil) && tripIDOrNil.RouteID != "" {
+			if _, ok := informedRoutesFromTripIDs[tripIDOrNil.RouteID]; !ok {
+				routeIDsFromTripIDs = append(routeIDsFromTripIDs, tripIDOrNil.RouteID)
+			}
 			if tripIDOrNil.DirectionID == DirectionID_Unspecified {
 				informedRoutesFromTripIDs[tripIDOrNil.RouteID] = map[DirectionID]bool{
 					DirectionID_False: true,
@@ -629,7 +634,8 @@ func parseAlert(ID string, alert *gtfsrt.Alert, opts *ParseRealtimeOptions) (*Al
 		informedEntities = append(informedEntities, informedEntity)
 	}
 
-	for routeID, directions := range informedRoutesFromTripIDs {
+	for _, routeID := range routeIDsFromTripIDs {
+		directions := informedRoutesFromTripIDs[routeID]
 		if informedRoutes[routeID] {
 			continue
 		}
